@@ -335,7 +335,8 @@ def evaluate(case):
         for step_mul, nn in ((16.0, n), (1.0, n), (0.25, n), (1.0, n // 2)):
             for interp in ((None, 0.1) if accepts_interp else (None,)):
                 tt = (np.arange(nn) + 7) * DT * step_mul
-                vv = sigs["two_tone"][:nn].copy()
+                # (with interpolation: a unit impulse, for which the l1 bound on the time-domain error is sharp)
+                vv = sigs["two_tone"][:nn].copy() if interp is None else sigs["delta1"][:nn].copy()
                 kw = {} if interp is None else {"attenuation_interpolation": interp}
                 try:
                     (o_s, o_p), _ = path.propagate(Signal(tt, vv.copy(), Signal.Type.field), polarization=pols["mixed"], **kw)
@@ -355,12 +356,36 @@ def evaluate(case):
                     slack = 1e-10 * scale
                 else:
                     fpos = np.abs(ff[ff != 0])
-                    slack = (float(np.max(np.asarray(path.attenuation(fpos * 10 ** -interp), float) - np.asarray(path.attenuation(fpos * 10 ** interp), float))) + 1e-9) \
-                        * float(np.sum(np.abs(vv))) * float(np.linalg.norm(pols["mixed"]))
+                    slack = (_interp_deviation(path, fpos, interp) + 1e-9) * float(np.sum(np.abs(vv))) * float(np.linalg.norm(pols["mixed"]))
                 d = max(float(np.max(np.abs(np.asarray(o_s.values) - e_s))), float(np.max(np.abs(np.asarray(o_p.values) - e_p))))
                 if not d <= slack or not np.array_equal(o_s.times, tt + tof):
                     fail("reused-path", "solution %d: after earlier propagate calls, a signal with N=%d, dt x %g, interpolation %r comes out %.3g away from "
                                         "its own filter (allowed %.3g)" % (si, nn, step_mul, interp, d, slack))
+        # a function-backed (lazily evaluated) input, as every shipped Askaryan model is: the two returned signals are evaluated
+        # only after propagate has returned -- whatever the filters close over must still be theirs by then
+        if ("two_tone", "mixed") in outs:
+            from pyrex.signals import FunctionSignal
+            tv = sigs["two_tone"]
+
+            def sampled(tq, tv=tv):
+                idx = np.rint((np.asarray(tq, dtype=float) - t[0]) / DT).astype(int)
+                ok = (idx >= 0) & (idx < n)
+                return np.where(ok, tv[np.clip(idx, 0, n - 1)], 0.0)
+            try:
+                (o_s, o_p), _ = path.propagate(FunctionSignal(t, sampled, Signal.Type.field), polarization=pols["mixed"])
+                nev += 1
+                g_s, g_p = np.asarray(o_s.values, float), np.asarray(o_p.values, float)
+                w_s, w_p = outs[("two_tone", "mixed")]
+                if not (np.array_equal(o_s.times, t + tof) and np.array_equal(o_p.times, t + tof)):
+                    fail("delay", "solution %d, FunctionSignal input: output grid is not the input grid + tof" % si)
+                elif not (np.max(np.abs(g_s - w_s)) <= 1e-10 * max(1.0, float(np.max(np.abs(tv)))) and
+                          np.max(np.abs(g_p - w_p)) <= 1e-10 * max(1.0, float(np.max(np.abs(tv))))):
+                    fail("propagated-function-signal", "solution %d: a FunctionSignal with the same samples comes out %.3g (s) / %.3g (p) away "
+                         "from the propagated sampled signal" % (si, np.max(np.abs(g_s - w_s)), np.max(np.abs(g_p - w_p))))
+            except Exception as e:
+                if src.exception_origin(e) != "library":
+                    raise
+                fail("exception", "solution %d propagate(FunctionSignal): %s" % (si, src.short_tb(e)))
         # linearity in the signal and in the polarization (no interpolation)
         if ("delta1", "x") in outs and ("two_tone", "x") in outs:
             comb = 2.0 * sigs["delta1"] - 0.5 * sigs["two_tone"]
